@@ -116,6 +116,10 @@ func (self *StreamDecoder) Decode(val interface{}) (err error) {
 
 		self.scanned += int64(self.scanp)
 		self.scanp = 0
+	} else if self.err == nil {
+		// NOTICE: More() is false without an error only in front of a stray ']' or '}':
+		// there is no value to decode, and returning nil would never make progress
+		self.setErr(SyntaxError{self.scanp, string(self.buf), types.ERR_INVALID_CHAR, ""})
 	}
 
 	return self.err
